@@ -267,7 +267,13 @@ def integration_facts(prog: Program, fw: str, ci: ClassInfo) -> Tuple[Dict[str, 
                     status = 'status_by_error(codes)'
                 else:
                     status = norm(st)
-            ctype = 'json_response default' if 'json_response' in norm(v.func) else norm(kws.get('mimetype') or kws.get('content_type') or ast.Constant(value='?'))
+            explicit_ct = kws.get('mimetype') or kws.get('content_type')
+            ctype = 'json_response default' if ('json_response' in norm(v.func) and explicit_ct is None) else \
+                norm(explicit_ct or ast.Constant(value='?'))
+            if 'json_response' in norm(v.func) and explicit_ct is not None and not ctype.endswith('DEFAULT_CONTENT_TYPE') and ctype != "'application/json'":
+                problems.append(('RELAY', 'reply content type is not the JSON default', n.line,
+                                 f'{fw}: `{norm(v)[:90]}` sets the reply content type to `{ctype}`; the reply must carry the JSON content type '
+                                 f'(pjrpc.common.DEFAULT_CONTENT_TYPE) whatever media type the request used'))
             relay['verdict'] = f'body={"dispatcher text" if body_ok else norm(body) if body is not None else "?"} status={status} type={ctype.rsplit(".", 1)[-1]}'
             if not body_ok:
                 problems.append(('RELAY', 'reply body is not the dispatcher\'s response text', n.line,
